@@ -101,50 +101,106 @@ def subset(check, prog):
     loc = prog.loc(q, fd)
     it = Interp(prog, max_depth=1, opaque=[MD + 'flat', MD + 'copy_metadata'])
     res = it.analyze(q)
+    seed_ = sym(fd.args.args[3].arg) if len(fd.args.args) > 3 else sym('seed')
+    notnone = [(('cmp', 'is not', seed_, NONE), True)]
+    isnone_f = [(('cmp', 'is', seed_, NONE), False)]
+    pix_none = intern(('cmp', 'is', sym(fd.args.args[1].arg), NONE))
     seedcalls = [c for c in it.calls if c['name'] == 'numpy.random.seed']
-    ok = len(seedcalls) == 1 and seedcalls[0]['args'] == (sym('seed'),)
-    if ok:
-        cond = [(t, pol) for t, pol in seedcalls[0]['cond']
-                if not (t == ('cmp', 'is', sym('pixels'), NONE))]
-        ok = cond == [(('cmp', 'is not', sym('seed'), NONE), True)] or \
-            cond == [(('cmp', 'is', sym('seed'), NONE), False)]
-        why = [(show(t), pol) for t, pol in cond]
-    else:
-        why = 'found %d reseeding calls' % len(seedcalls)
-    check.require(ok, 'D2-reproducible', 'make_subset_data reseeding',
-                  'np.random.seed(seed) runs exactly when seed is not None', loc,
-                  fail_detail='reseeding condition is %s: a falsy seed such as 0 does '
-                  'not reseed, so the subset is not reproducible' % (why,))
-    draws = [c for c in it.calls if c['name'].startswith('numpy.random.') and
-             c['name'] != 'numpy.random.seed']
-    okd = len(draws) == 1
-    if okd:
-        c = draws[0]
-        if c['name'] == 'numpy.random.choice':
-            okd = dict(c['kwargs']).get('replace') == FALSE or (
-                len(c['args']) > 2 and c['args'][2] == FALSE)
-        elif c['name'] == 'numpy.random.permutation':
-            okd = True
+    # the draw: numpy.random.choice / .permutation, or the same method of a
+    # private generator object
+    draws = []
+    for c in it.calls:
+        if c['name'] in ('numpy.random.choice', 'numpy.random.permutation'):
+            draws.append((c, c['name'].rpartition('.')[2], None, list(c['args'])))
+        elif c['name'] in ('.choice', '.permutation') and c['args']:
+            draws.append((c, c['name'][1:], c['args'][0], list(c['args'][1:])))
+        elif c['name'].startswith('numpy.random.') and c['name'].rpartition('.')[2] not in (
+                'seed', 'RandomState', 'default_rng', 'Generator', 'SeedSequence'):
+            draws.append((c, c['name'].rpartition('.')[2], None, list(c['args'])))
+    GEN = ('numpy.random.RandomState', 'numpy.random.default_rng')
+
+    def seeded(g):
+        """True / False / None(undecidable): does generator term g depend on the seed
+        for every seed that is not None?"""
+        if g[0] == 'call' and g[1] in GEN:
+            a0 = list(g[2]) + [v for k, v in g[3]]
+            return a0 == [seed_]
+        if g[0] == 'ite':
+            c = g[1]
+            if c == ('cmp', 'is not', seed_, NONE):
+                return seeded(g[2])
+            if c == ('cmp', 'is', seed_, NONE):
+                return seeded(g[3])
+            return False      # e.g. truthiness of the seed: seed 0 goes unseeded
+        return False
+    from .common import norm_cond
+    isnone_t = intern(('cmp', 'is', seed_, NONE))
+    ok = bool(draws)
+    why = 'found %d reseeding calls and %d draws' % (len(seedcalls), len(draws))
+    for c, meth, recv, args in draws:
+        cond = [(t, pol) for t, pol in norm_cond(c['cond']) if t != pix_none]
+        only_unseeded = (isnone_t, True) in cond or \
+            (('cmp', 'is not', seed_, NONE), False) in cond
+        if recv is None or recv == ('extref', 'numpy.random'):
+            if only_unseeded:
+                continue            # the global generator serves seed=None only
+            good = len(seedcalls) == 1 and seedcalls[0]['args'] == (seed_,)
+            if good:
+                sc = [(t, pol) for t, pol in seedcalls[0]['cond'] if t != pix_none]
+                good = sc in (notnone, isnone_f) and \
+                    it.calls.index(seedcalls[0]) < it.calls.index(c)
+                why = 'global generator reseeded under %s' % [(show(t), p) for t, p in sc]
+            ok = ok and good
         else:
-            okd = False
-        # the draw comes after (is dominated by) the reseeding in program order
-        if ok and okd:
-            okd = it.calls.index(seedcalls[0]) < it.calls.index(c)
+            good = seeded(recv) is True
+            if not good:
+                why = 'draws from %s under %s' % (show(recv)[:80],
+                                                  [(show(t)[:40], p) for t, p in cond])
+            ok = ok and good
+    # ... and some draw must serve the seeded case
+    ok = ok and any(not ((isnone_t, True) in norm_cond(c['cond'])) for c, _, _, _ in draws)
+    check.require(ok, 'D2-reproducible', 'make_subset_data reseeding',
+                  'for every seed that is not None the draw comes from a generator '
+                  'seeded with it (np.random.seed(seed) before the draw, or a private '
+                  'RandomState(seed) / default_rng(seed))', loc,
+                  fail_detail='%s: a falsy seed such as 0 does not seed the draw, so '
+                  'the subset is not reproducible' % (why,))
+    okd = bool(draws)
+    draw_terms = set()
+    for c, meth, recv, args in draws:
+        if meth == 'choice':
+            good = dict(c['kwargs']).get('replace') == FALSE or (
+                len(args) > 2 and args[2] == FALSE)
+        else:
+            good = meth == 'permutation'
+        okd = okd and good
+        kwt = tuple(c['kwargs'])
+        draw_terms.add(intern(('call', c['name'], tuple(args), kwt)) if recv is None else
+                       intern(('call', ('attr', recv, meth), tuple(args), kwt)))
+    # all draws are the same request (population, count) on different generators
+    okd = okd and len({(tuple(a), tuple(c['kwargs'])) for c, _, _, a in draws}) == 1
     check.require(okd, 'D2-distinct-pixels', 'make_subset_data draw',
-                  'indices drawn without replacement, after the reseeding', loc,
+                  'indices drawn without replacement', loc,
                   fail_detail='draws: %s' % [(c['name'], [(k, show(v)) for k, v in
-                                                           c['kwargs']]) for c in draws])
+                                                           c['kwargs']])
+                                             for c, _, _, _ in draws])
+
+    def is_draw(t):
+        """the selection is one of the draws (possibly chosen by a condition)"""
+        if t[0] == 'ite':
+            return is_draw(t[2]) and is_draw(t[3])
+        return t in draw_terms
     if okd:
-        c = draws[0]
-        n = c['args'][0]
+        c, meth, recv, args = draws[0]
+        n = args[0]
         canon = Canon()
         want = expr_term(prog, 'len(data.x) * len(data.y)', {'data': sym('data')})
-        check.require(canon.equal(n, want) and len(c['args']) > 1 and
-                      c['args'][1] == sym('pixels'), 'D2-distinct-pixels',
+        check.require(canon.equal(n, want) and len(args) > 1 and
+                      args[1] == sym('pixels'), 'D2-distinct-pixels',
                       'make_subset_data population',
                       '`pixels` indices out of len(x)*len(y)', loc,
                       fail_detail='draws %s from %s' % (
-                          show(c['args'][1])[:40] if len(c['args']) > 1 else None,
+                          show(args[1])[:40] if len(args) > 1 else None,
                           show(n)[:80]))
     rets = [o for o in res.returns if o.value != sym('data')]
     first = [o for o in res.returns if o.value == sym('data')]
@@ -161,9 +217,8 @@ def subset(check, prog):
             sel = c0[2][1]
             ok = c0[2][0] == sym('data') and sel[0] == 'call' and \
                 sel[1] == ('attr', ('call', MD + 'flat', (sym('data'),), ()), 'isel') and \
-                dict(sel[3]).get('flat') is not None and \
-                bool(calls_in(dict(sel[3])['flat'], 'numpy.random.choice') or
-                     calls_in(dict(sel[3])['flat'], 'numpy.random.permutation'))
+                dict(sel[3]).get('flat') is not None and bool(draw_terms) and \
+                is_draw(dict(sel[3])['flat'])
         check.require(ok, 'D2-selection', 'make_subset_data result',
                       'copy_metadata(data, flat(data).isel(flat=selection), ...): '
                       'values, coordinates and metadata of the selected pixels', loc,
@@ -333,8 +388,12 @@ def coordinates(check, prog):
         (rs, True) in norm_cond(pair[0].cond) and \
         (rs, False) in norm_cond(single[0].cond) and \
         len(pair[0].value[1]) == 2 and pair[0].value[1][0] == single[0].value and \
-        pair[0].value[1][1][0] == 'call' and \
-        pair[0].value[1][1][1] == 'numpy.random.choice'
+        any(x == pair[0].value[1][1] for x in subterms(single[0].value)) and \
+        any(x[0] == 'call' and (
+            x[1] in ('numpy.random.choice', 'numpy.random.permutation') or
+            (isinstance(x[1], tuple) and x[1][0] == 'attr' and
+             x[1][2] in ('choice', 'permutation')))
+            for x in subterms(pair[0].value[1][1]))
     check.require(ok, 'D2-selection', 'make_subset_data return value',
                   'the subset, plus the drawn indices iff return_selection',
                   prog.loc(q, fd))
